@@ -145,6 +145,7 @@ def _set_with_op(container: Any, key: Any, op: str, value: Any) -> Any:
         raise ParserError(f'Key error \'{key}\'')
 
     if op == '+=':
+        _check_concat_size(container[key], value)
         container[key] += value
     elif op == '-=':
         container[key] -= value
@@ -321,6 +322,11 @@ def _reversed(container: Union[list, str]):
 
 def _check_array_size(arr: Union[list, dict]):
     if len(arr) >= MAX_ARRAY_SIZE:
+        raise ParserError(f'Array size overflow: {MAX_ARRAY_SIZE}')
+
+
+def _check_concat_size(a: Any, b: Any):
+    if isinstance(a, list) and isinstance(b, list) and len(a) + len(b) > MAX_ARRAY_SIZE:
         raise ParserError(f'Array size overflow: {MAX_ARRAY_SIZE}')
 
 
